@@ -54,7 +54,22 @@ func script0(w *W) string {
 		}
 		return c.String()
 	}
+	if w.SharedProd {
+		// ONE closure value, spawned once per producer: every execution has its own locals
+		b.WriteString("$prod = function() use ($ch) {\n  $me = __claim();\n  $n = __count($me);\n  for ($k = 0; $k < $n; $k++) {\n    $lab = \"p\" . $me . \"-\" . $k;\n    __b($me, \"send\", $lab);\n    $r = $ch->send($lab);\n    __e($me, $r);\n  }\n")
+		if w.CloseAfter && w.Closers > 0 {
+			fmt.Fprintf(&b, "  if (__producer_done()) {\n%s  }\n", closers("    "))
+		}
+		b.WriteString("};\n")
+		for range w.Producers {
+			b.WriteString("spawn($prod);\n")
+			id++
+		}
+	}
 	for p, n := range w.Producers {
+		if w.SharedProd {
+			break
+		}
 		fmt.Fprintf(&b, "spawn(function() use ($ch) {\n%s", nap(id))
 		if w.Payload == "loopint" && !w.ArrayPayload {
 			// the most natural producer: the loop counter itself is the payload
@@ -202,6 +217,18 @@ func execScript(t *testing.T, w *W, s hx.Sched) *hx.Outcome {
 			}
 			h.end(id, cur[id], ret)
 			return data.NewNullValue(), nil
+		}})
+		claimed := 0
+		env.VM.AddFunc(&hx.GoFunc{Name: "__claim", Params: []string{}, Fn: func(ctx data.Context, a []data.Value) (data.GetValue, data.Control) {
+			claimed++
+			return data.NewIntValue(claimed - 1), nil
+		}})
+		env.VM.AddFunc(&hx.GoFunc{Name: "__count", Params: []string{"me"}, Fn: func(ctx data.Context, a []data.Value) (data.GetValue, data.Control) {
+			me := atoi(hx.ValStr(a[0]))
+			if me < 0 || me >= len(w.Producers) {
+				return data.NewIntValue(0), nil
+			}
+			return data.NewIntValue(w.Producers[me]), nil
 		}})
 		env.VM.AddFunc(&hx.GoFunc{Name: "__producer_done", Params: []string{}, Fn: func(ctx data.Context, a []data.Value) (data.GetValue, data.Control) {
 			producersLeft--
